@@ -1,5 +1,7 @@
 #!/bin/sh
 # tools_try_mutant.sh <patch.diff> <PROP> [more PROPs...]: apply a seeded change, run the quick checks, undo it.
+# (NOLEAN=1 SCRATCHLEAN=" " runs the Lean stage too, still against the scratch copy: the generated skeleton files are rewritten from the
+# copy under the build lock and put back afterwards.)
 # With NOLEAN=1 the change is applied to a scratch copy of /repo's working tree (ELIOT_REPO points the harness at it), so several
 # runs can go on at once and /repo is never touched.  Without it the change is applied to /repo itself (one run at a time, under a
 # lock) and the full check, Lean stage included, runs as it would for anyone else; refuses when /repo has changes of its own.
@@ -9,7 +11,7 @@ if [ -n "$NOLEAN" ]; then
   git -C /repo ls-files -z | (cd /repo && xargs -0 cp --parents -t "$tmp")
   (cd "$tmp" && mkdir .evidence && git apply "$patch") || { echo "patch does not apply"; rm -rf "$tmp"; exit 2; }
   for p in "$@"; do
-    out=$(cd /verif && VERIF_EVIDENCE_DIR="$tmp/.evidence" ELIOT_REPO="$tmp" bin/check "$p" --no-lean 2>&1 | grep -v "^KNOWN-FINDING" | tail -2 | tr '\n' ' ')
+    out=$(cd /verif && VERIF_EVIDENCE_DIR="$tmp/.evidence" ELIOT_REPO="$tmp" bin/check "$p" ${SCRATCHLEAN:---no-lean} 2>&1 | grep -v "^KNOWN-FINDING" | tail -2 | tr '\n' ' ')
     echo "$p: $out"
   done
   rm -rf "$tmp"
